@@ -201,7 +201,6 @@ func c17Runes(c *vrep.Ctx) {
 	})
 }
 
-
 // c17LongText: running text with punctuation throughout, of sizes a little above the powers of two
 // from 1 KiB to 128 KiB (whatever a tokenizer may do differently for long inputs: pieces, buffers,
 // narrow offsets), shifted by 0..15 leading bytes; the oracle of c17_tokens.
